@@ -70,11 +70,14 @@ type scriptGroup struct {
 	snapshot                 raft.SnapshotFn
 }
 
-func (g *scriptGroup) RegisterProcessFn(f raft.ProcessFn) error         { g.process = f; return nil }
-func (g *scriptGroup) RegisterProcessSnapshotFn(f raft.ProcessFn) error { g.processSnapshot = f; return nil }
-func (g *scriptGroup) RegisterSnapshotFn(f raft.SnapshotFn) error       { g.snapshot = f; return nil }
-func (g *scriptGroup) LeaderId() uint64                                 { return 1 }
-func (g *scriptGroup) Propose(context.Context, []byte) error            { return nil }
+func (g *scriptGroup) RegisterProcessFn(f raft.ProcessFn) error { g.process = f; return nil }
+func (g *scriptGroup) RegisterProcessSnapshotFn(f raft.ProcessFn) error {
+	g.processSnapshot = f
+	return nil
+}
+func (g *scriptGroup) RegisterSnapshotFn(f raft.SnapshotFn) error { g.snapshot = f; return nil }
+func (g *scriptGroup) LeaderId() uint64                           { return 1 }
+func (g *scriptGroup) Propose(context.Context, []byte) error      { return nil }
 
 type catNode struct {
 	g     *scriptGroup
@@ -310,7 +313,24 @@ func c14Canon(ms []c14Meta) []c14Meta {
 
 // ---- restart of a real server ----
 
+// freePort hands out loopback ports from a block that belongs to this process: 10000 + (pid mod 1130) * 20 + k, below
+// the kernel's ephemeral range, so that neither another harness process running at the same time nor an outgoing
+// connection can take a port between the moment it is chosen and the moment the server listens on it.
+var portCounter int
+
 func freePort() string {
+	base := 10000 + (os.Getpid()%1130)*20
+	for try := 0; try < 20; try++ {
+		p := base + portCounter%20
+		portCounter++
+		l, err := net.Listen("tcp", fmt.Sprintf(":%d", p))
+		if err != nil {
+			continue
+		}
+		l.Close()
+		return fmt.Sprint(p)
+	}
+	// fall back to a kernel-chosen port
 	l, err := net.Listen("tcp", "127.0.0.1:0")
 	if err != nil {
 		return "36123"
